@@ -101,6 +101,12 @@ LEVEL_TEXT = ("Machine-checked theorems: T<0 never yields 'nothing' and only iss
               "history of construct/Shift/Cancel/drop/clock/Step with arbitrary task bodies, T < 2^31, fuel >= 1) prove that they accept every trace "
               "the model can produce, so a spec verdict on the implementation is provably a difference between implementation and model.")
 LEVEL_NOTE = ("Trusted: Lean kernel; axioms propext/Quot.sound/Classical.choice; model validated on the grid; vos shim. Real elapsed "
-              "time is the kernel's business (A-POLL). The TLS socket's waits are checked on the implementation (budget clauses of the C18 spec, "
-              "correspondence with the glue model) but the budget theorems above are about the plain loops; for the TLS glue the "
-              "corresponding statements are tlsRead_bounds / writeRound_chain in Props/C18.lean.")
+              "time is the kernel's business (A-POLL). The budget theorems above are about the plain loops; for the TLS socket (the "
+              "remainingTime budget threaded through HandleError, the BIO callbacks and UnderDeadline, handshake rounds included) the "
+              "same three statements are theorems of the TLS glue model in Props/C18.lean, section 'C07 for the TLS glue' "
+              "(tls_zero_never_blocks, tls_unlimited_waits / tls_unlimited_receive_never_nothing / tls_unlimited_send_complete, "
+              "tls_limited_budget, tls_budget_never_negative: every engine, every world, every starting state, every wait read off a "
+              "logging world), under the explicit hypotheses A-CLOCK (ClockOk) and A-SSL (FailStop / BlockingRead / WriteProgress), each "
+              "shown necessary by a witness; the seeded 'BioRead without write-back' is refuted as a counter-model "
+              "(seeded_bioRead_doubles_the_wait). The TLS socket's waits are additionally checked on the implementation (budget clauses of "
+              "the C18 spec, correspondence with the glue model).")
